@@ -11,53 +11,130 @@ def grammar_tables(repo: Path):
     if not m:
         raise ExtractError("grammar_terminals", "extern enum Token not found")
     terms = dict(re.findall(r'"([^"]+)"\s*=>\s*Token::(\w+)', m.group(1)))
-    # tier chain
-    chain = re.findall(r"pub ExprPrecedence(\d)\s*=\s*ExprTier<ExprOp(\d),\s*ExprPrecedence(\d)>;", g)
-    if not chain:
+    # everything else is read off the NORMALISED grammar (binding names, position markers, `pub`, the order of alternatives
+    # and macros / `#[inline]` helpers do not matter): see lalrpop_norm.py
+    import lalrpop_norm as N
+    try:
+        G = N.Grammar((repo / "src/parser.lalrpop").read_text())
+    except (N.GrammarError, IndexError, KeyError) as e:
+        raise ExtractError("tiers", f"grammar not readable: {e}")
+
+    def nt(name, *args):
+        return ("nt", name, tuple(args))
+
+    # the tier macro: M<Op, Next> = Next | M<Op, Next> Op Next  (left-recursive, one operator between two operands)
+    tier_macros = []
+    for name, (params, inline, alts) in G.rules.items():
+        if len(params) != 2:
+            continue
+        P, Q = nt(params[0]), nt(params[1])
+        shapes = {a[0] for a in G.alts(name, (P, Q), keep=(name,))}
+        if shapes == {(Q,), (nt(name, P, Q), P, Q)}:
+            tier_macros.append(name)
+        elif (Q, P, nt(name, P, Q)) in shapes or (Q, P, Q) in shapes:
+            raise ExtractError("tiers", f"{name} is not `{name} op NextTier` (left-recursive)")
+    if len(tier_macros) != 1:
+        raise ExtractError("tiers", f"expected one left-recursive tier macro `M<Op, Next> = Next | M Op Next`, found {tier_macros}")
+    M = tier_macros[0]
+    inst = {}          # nonterminal -> (operator nonterminal, next tier)
+    for name, (params, inline, alts) in G.rules.items():
+        if params:
+            continue
+        al = G.alts(name, keep=(M,))
+        if len(al) == 1 and len(al[0][0]) == 1 and al[0][0][0][0] == "nt" and al[0][0][0][1] == M:
+            a = al[0][0][0][2]
+            if len(a) != 2 or a[0][0] != "nt" or a[1][0] != "nt":
+                raise ExtractError("tiers", f"unexpected instance of {M} in {name}")
+            inst[name] = (a[0][1], a[1][1])
+    if not inst:
         raise ExtractError("tiers", "no ExprTier chain found")
-    ops = []
-    for lvl, opn, nxt in chain:
-        if lvl != opn or int(nxt) != int(lvl) + 1:
-            raise ExtractError("tiers", f"unexpected chain element ExprPrecedence{lvl} = ExprTier<ExprOp{opn}, ExprPrecedence{nxt}>")
-        mm = re.search(r"pub ExprOp" + opn + r": BinaryOp = \{(.*?)\};", g, re.S)
-        if not mm:
-            raise ExtractError("tiers", f"ExprOp{opn} not found")
-        rows = re.findall(r'"([^"]+)"\s*=>\s*BinaryOp::(\w+)', mm.group(1))
-        if len(rows) != mm.group(1).count("=>"):
-            raise ExtractError("tiers", f"ExprOp{opn}: unrecognised alternative")
-        for sym, op in rows:
+    # the loosest level: R = First | Expr ".." First, where Expr = R (with its position)
+    first = [n for n in inst if n not in {nx for _, nx in inst.values()}]
+    if len(first) != 1:
+        raise ExtractError("tiers", f"tier chain does not have one start: {sorted(first)}")
+    first = first[0]
+    range_rules = []
+    for name, (params, inline, alts) in G.rules.items():
+        if params:
+            continue
+        shapes = [a[0] for a in G.alts(name, keep=(M,))]
+        if any(len(sh) == 3 and sh[1] == ("lit", "..") for sh in shapes):
+            range_rules.append((name, shapes))
+    ok_range = False
+    for name, shapes in range_rules:
+        wrappers = [n for n, (pp, il, al) in G.rules.items() if not pp and [a[0] for a in G.alts(n, keep=(M,))] == [(nt(name),)]]
+        for w in wrappers:
+            if set(shapes) == {(nt(first),), (nt(w), ("lit", ".."), nt(first))}:
+                ok_range = True
+    if not ok_range:
+        raise ExtractError("range", "range production is not `Expr .. <first tier>` next to `<first tier>` in the loosest level")
+    # follow the chain; levels are positions: `..` is level 1, the first operator tier 2, …
+    ops, levels, cur, lvl = [], [], first, 2
+    while cur in inst:
+        opnt, nxt = inst[cur]
+        if opnt not in G.rules:
+            raise ExtractError("tiers", f"{opnt} not found")
+        for syms, action in G.alts(opnt):
+            mm = re.search(r"BinaryOp\s*:\s*:\s*(\w+)", action)
+            if len(syms) != 1 or syms[0][0] != "lit" or not mm:
+                raise ExtractError("tiers", f"{opnt}: unrecognised alternative")
+            sym = syms[0][1]
             if sym not in terms:
                 raise ExtractError("tiers", f"terminal {sym!r} has no Token")
-            ops.append((sym, terms[sym], op, int(lvl)))
-    levels = sorted(int(l) for l, _, _ in chain)
-    if levels != list(range(levels[0], levels[0] + len(levels))):
-        raise ExtractError("tiers", f"tier levels not contiguous: {levels}")
-    # ExprTier shape: left recursion, NextTier on the right
-    mm = re.search(r"ExprTier<Op, NextTier>: RawExpr = \{(.*?)\n\}", g, re.S)
-    if not mm or not re.search(r"<l:ExprTier<Op, NextTier>>\s*<op_loc:@L> <op:Op>\s*<r_loc:@L> <r:NextTier>", mm.group(1)):
-        raise ExtractError("tiers", "ExprTier is not `l:ExprTier op r:NextTier` (left-recursive)")
-    # range production: loosest, left operand Expr, right operand the first tier
-    mm = re.search(r"pub ExprPrecedence1: RawExpr = \{(.*?)\n\}", g, re.S)
-    if not mm or not re.search(r'<start:Expr> "\.\." <el:@L> <end:ExprPrecedence' + str(levels[0]) + r">", mm.group(1)):
-        raise ExtractError("range", "range production is not `Expr .. ExprPrecedence<first tier>` in ExprPrecedence1")
-    # postfix forms of the tightest level
-    last = levels[-1] + 1
-    mm = re.search(r"pub ExprPrecedence" + str(last) + r": RawExpr = \{(.*?)\n\}", g, re.S)
-    if not mm:
-        raise ExtractError("postfix", f"ExprPrecedence{last} not found")
-    forms = []
-    for alt in re.findall(r"<expr:ExprPrecedence" + str(last) + r">\s*\"([^\"]+)\"", mm.group(1)):
-        forms.append(alt)
-    postfix = []
-    body = mm.group(1)
-    for alt in re.finditer(r"<loc:@L> <expr:ExprPrecedence" + str(last) + r"> (.*?)=>\s*RawExpr::(\w+)\{([^}]*)", body, re.S):
-        toks = re.findall(r'"([^"]+)"', alt.group(1))
-        kind = alt.group(2)
-        tp = "type_prop: true" in alt.group(3)
-        postfix.append((toks[0], kind + ("T" if tp else "")))
-    assign_ops = re.findall(r'<lhs:Expr> <op_loc:@L> "([^"]+)" <rhs:Expr> =>\s*Stmt::OpAssign\{lhs, op: BinaryOp::(\w+), op_loc, rhs\}', g)
+            ops.append((sym, terms[sym], mm.group(1), lvl))
+        levels.append(lvl)
+        cur, lvl = nxt, lvl + 1
+    if len(levels) != len(inst):
+        raise ExtractError("tiers", "tier chain is not one chain")
+    # postfix forms of the tightest level: P = Atoms | P <opening token> …
+    if cur not in G.rules:
+        raise ExtractError("postfix", f"{cur} not found")
+    postfix, atoms = [], 0
+    for syms, action in G.alts(cur, keep=(M,)):
+        if syms and syms[0] == nt(cur):
+            if len(syms) < 2 or syms[1][0] != "lit":
+                raise ExtractError("postfix", f"{cur}: a postfix form does not start with a token")
+            mm = re.search(r"RawExpr\s*:\s*:\s*(\w+)", action)
+            if not mm:
+                raise ExtractError("postfix", f"{cur}: a postfix form does not build a RawExpr")
+            tp = re.search(r"type_prop\s*:\s*true", action) is not None
+            postfix.append((syms[1][1], mm.group(1) + ("T" if tp else "")))
+        elif len(syms) == 1 and syms[0][0] == "nt":
+            atoms += 1
+        else:
+            raise ExtractError("postfix", f"{cur}: unrecognised alternative")
+    if atoms != 1:
+        raise ExtractError("postfix", f"{cur}: expected one alternative for the atoms")
+    # op-assignment statements: Expr <token> Expr => Stmt::OpAssign, the token written out or through a table nonterminal
+    assign_ops = []
+    for name, (params, inline, alts) in G.rules.items():
+        if params:
+            continue
+        for syms, action in G.alts(name, keep=(M,)):
+            if "OpAssign" not in action:
+                continue
+            if len(syms) != 3 or syms[0][0] != "nt" or syms[2] != syms[0]:
+                raise ExtractError("assign_ops", f"{name}: op-assignment is not `Expr op Expr`")
+            mid = syms[1]
+            if mid[0] == "lit":
+                mm = re.search(r"BinaryOp\s*:\s*:\s*(\w+)", action)
+                if not mm:
+                    raise ExtractError("assign_ops", f"{name}: op-assignment without an operator")
+                assign_ops.append((mid[1], mm.group(1)))
+            elif mid[0] == "nt" and mid[1] in G.rules:
+                for s2, a2 in G.alts(mid[1]):
+                    mm = re.search(r"BinaryOp\s*:\s*:\s*(\w+)", a2)
+                    if len(s2) != 1 or s2[0][0] != "lit" or not mm:
+                        raise ExtractError("assign_ops", f"{mid[1]}: unrecognised alternative")
+                    assign_ops.append((s2[0][1], mm.group(1)))
+            else:
+                raise ExtractError("assign_ops", f"{name}: unrecognised op-assignment")
+    # a canonical order, so that reordering alternatives is not a change: by tier, then by token spelling
+    ops.sort(key=lambda r: (r[3], r[0]))
+    postfix.sort()
+    assign_ops.sort()
     return dict(terminals=terms, binops=ops, tier_levels=levels, postfix=postfix,
-                assign_ops=[(s, terms[s], op) for s, op in assign_ops])
+                assign_ops=[(s_, terms[s_], op) for s_, op in assign_ops])
 
 
 def emit_grammar(gr):
@@ -227,27 +304,41 @@ def error_tables(repo: Path):
     type_diag = table("render_type", "src/eval/error.rs", "typeNameDiag")
     type_fn = table("render_type", "src/builtins/type_functions.rs", "typeNameFn")
     op_sym = table("op_symbol", "src/eval/error.rs", "opSymbol")
+    variants.sort(key=lambda v: v["name"])          # a canonical order: regrouping the enum's variants changes nothing
     return dict(variants=variants, type_diag=type_diag, type_fn=type_fn, op_symbol=op_sym)
 
 
 def renderer_tables(repo: Path, err):
     src = strip_comments((repo / "src/main.rs").read_text())
     body = fn_body(src, "eval_err_to_stacktrace", "peeled")
-    m = re.search(r"match error \{(.*)\Z", body, re.S)
+    m = re.search(r"match error \{", body)
     if not m:
         raise ExtractError("peeled", "match error { … } not found")
-    arms = m.group(1)
-    first = re.match(r"\s*((?:EvalError::\w+\{[^}]*\}\s*\|?\s*)+)=>\s*\{\s*eval_err_to_stacktrace\(path, func, \*source\)\s*\}", arms, re.S)
-    if not first:
-        raise ExtractError("peeled", "first arm is not an or-pattern of wrappers forwarding to `*source` with the same `func`")
-    peeled = re.findall(r"EvalError::(\w+)\{([^}]*)\}", first.group(1))
-    for name, pat in peeled:
-        if not re.match(r"\s*source\s*(,\s*\.\.)?\s*\Z", pat):
-            raise ExtractError("peeled", f"{name}: pattern binds more than `source`")
-    rest = arms[first.end():]
-    handled = re.findall(r"EvalError::(\w+)\{[^}]*\}\s*=>", rest)
-    if not re.search(r"_\s*=>\s*\{\s*StacktracedErrorMsg\{stacktrace: vec!\[\], msg: format!\(\"\{error\}\"\)\}", rest):
+    end = balanced(body, m.end() - 1, "{", "}")
+    # the arms are classified by SHAPE, wherever they stand: an arm that just forwards to the wrapped error with the same
+    # `func` peels its variants; the default arm is the Display fallback; every other arm handles its variant itself
+    peeled, handled, default_ok = [], [], False
+    for pat, arm in match_arms(body[m.end():end - 1], "peeled"):
+        flat = " ".join(arm.split())
+        if pat == "_":
+            default_ok = bool(re.search(r"StacktracedErrorMsg\s*\{\s*stacktrace: vec!\[\], msg: (?:format!\(\"\{error\}\"\)|error\.to_string\(\))", flat))
+            continue
+        alts = re.findall(r"EvalError::(\w+)\s*\{([^}]*)\}", pat)
+        if not alts:
+            raise ExtractError("peeled", f"unrecognised arm pattern {pat[:60]!r}")
+        if re.fullmatch(r"eval_err_to_stacktrace\(path, func, \*source\)", flat):
+            for name, binds in alts:
+                if not re.match(r"\s*source\s*(,\s*\.\.)?\s*\Z", binds):
+                    raise ExtractError("peeled", f"{name}: pattern binds more than `source`")
+                peeled.append((name, binds))
+        else:
+            handled += [name for name, _ in alts]
+    if not peeled:
+        raise ExtractError("peeled", "no arm forwards wrappers to `*source` with the same `func`")
+    if not default_ok:
         raise ExtractError("peeled", "default arm is not the Display fallback")
+    peeled.sort()
+    handled.sort()
     names = {v["name"] for v in err["variants"]}
     for n in [p for p, _ in peeled] + handled:
         if n not in names:
@@ -281,6 +372,21 @@ def typefn_tables(repo: Path):
             raise ExtractError("typeFns", f"namespace {ns}: entry not understood")
         for key, bname, fn in found:
             rows.append((ns, key, bname, fn))
+    if not rows:
+        # second shape: per-type constant tables of (name, function) registered through a helper that derives the built-in's
+        # name as "<type>-><name>"
+        consts = {cm.group(1): re.findall(r'\(\s*"(\w+)"\s*,\s*(\w+)\s*\)', cm.group(2))
+                  for cm in re.finditer(r"\bconst\s+(\w+)\s*:[^=]*=\s*&\[(.*?)\]\s*;", src, re.S)}
+        regs = re.findall(r'(\w+):\s*(\w+)\("(\w+)",\s*(\w+)\)', body)
+        for ns, helper, ty, table in regs:
+            try:
+                hb = fn_body(src, helper, "typeFns")
+            except ExtractError:
+                continue
+            if table not in consts or not re.search(r'format!\("\{(\w+)\}->\{(\w+)\}"\)', hb):
+                raise ExtractError("typeFns", f"namespace {ns}: registration not understood")
+            for key, fn in consts[table]:
+                rows.append((ns, key, f"{ty}->{key}", fn))
     if not rows:
         raise ExtractError("typeFns", "no rows")
     return rows
@@ -437,7 +543,11 @@ def determinism_tables(repo: Path):
             line_start = src.rfind("\n", 0, m.start()) + 1
             if src[line_start:m.start()].strip().startswith("use"):
                 continue
-            env.append(f"{fp.name}:{m.group(1)}::{m.group(2)}")
+            # a type mentioned in a signature (`env::Args`, `process::ExitCode`) is not a use; an associated function of a
+            # type (`fs::File::open`) is.  Which FILE the use stands in is not recorded: code may move between modules.
+            if m.group(2)[0].isupper() and not src[m.end():].lstrip().startswith("::"):
+                continue
+            env.append(f"{m.group(1)}::{m.group(2)}")
     return dict(hash_iter_sites=sorted(set(sites)), env_uses=sorted(set(env)))
 
 
@@ -578,7 +688,7 @@ def binop_tables(repo: Path):
                 found += [f"a {x} b" for x in re.findall(r"\*a (&&|\|\|) \*b", b)]
                 if re.search(r"\*b == 0", b):
                     found.append("b == 0 -> overflow")
-                if re.search(r"\.concat\(\)", b):
+                if re.search(r"\.concat\(\)|\.extend\(|\.extend_from_slice\(|\.append\(|\.chain\(", b):   # one way or another: the two sequences joined
                     found.append("concat")
                 # any other arithmetic / bit operator applied in the arm (a hand-written shortcut next to the primitive)
                 plain = re.sub(r"\*(a|b|lhs|rhs)\b", r"\1", b)
@@ -701,11 +811,9 @@ def panic_totals(rows):
 
 
 def emit_panics(rows):
-    L = ["/-- every place of src/ that can panic in the host language, as `file:function:kind=count` (information: where the",
-         "    sites are; the audited obligation is `panicTotals`) -/",
-         "def panicSites : List (List Char) := ["]
-    L.append(",\n".join(f"  {lean_chars(x)}" for x in rows))
-    L.append("]\n")
+    # (where the sites are — file, function — goes to tables.json and the evidence, not into the model: it changes whenever
+    # code is moved)
+    L = []
     L += ["/-- explicit panics of src/ per kind, whole source (lock acquisitions not counted) -/",
           "def panicTotals : List (List Char) := ["]
     L.append(",\n".join(f"  {lean_chars(x)}" for x in panic_totals(rows)))
